@@ -32,6 +32,8 @@ def run(ctx, ss):
     from .c09 import c09_5, no_state_effects
     ctx.guard("C10.5", lambda c, s: _as(c, s, c09_5, "C10.5"), ss)
     ctx.guard("C10.5", lambda c, s: no_state_effects(c, s, "C10.5", pf.func(s, DEC, "DecFileParser.expand_decay_modes")), ss)
+    from .shared import memo_discipline
+    ctx.guard("C10.5", memo_discipline, ss, "C10.5", [f"{DEC}:DecFileParser.expand_decay_modes", "decay/decay.py:_expand_decay_modes"], "an expansion")
 
 
 def _product_call(ff):
